@@ -357,14 +357,18 @@ func (f *flower) flowReturn(fn *ssa.Function, idx int, acc litSet, depth int) (b
 // loopOf returns the blocks of the innermost natural loop containing b (nil if none).
 func loopOf(b *ssa.BasicBlock) map[*ssa.BasicBlock]bool {
 	fn := b.Parent()
-	var best map[*ssa.BasicBlock]bool
+	// natural loops, merged per header
+	loops := map[*ssa.BasicBlock]map[*ssa.BasicBlock]bool{}
 	for _, t := range fn.Blocks {
 		for _, h := range t.Succs {
 			if !dominates(h, t) {
 				continue
 			}
-			// back edge t -> h
-			body := map[*ssa.BasicBlock]bool{h: true}
+			body := loops[h]
+			if body == nil {
+				body = map[*ssa.BasicBlock]bool{h: true}
+				loops[h] = body
+			}
 			work := []*ssa.BasicBlock{t}
 			for len(work) > 0 {
 				x := work[len(work)-1]
@@ -375,9 +379,12 @@ func loopOf(b *ssa.BasicBlock) map[*ssa.BasicBlock]bool {
 				body[x] = true
 				work = append(work, x.Preds...)
 			}
-			if body[b] && (best == nil || len(body) < len(best)) {
-				best = body
-			}
+		}
+	}
+	var best map[*ssa.BasicBlock]bool
+	for _, body := range loops {
+		if body[b] && (best == nil || len(body) < len(best)) {
+			best = body
 		}
 	}
 	return best
